@@ -41,7 +41,7 @@ type TEvent struct {
 
 // Fault makes the K-th (1-based) call of Op fail with Err.
 type Fault struct {
-	Op  string `json:"op"`  // write | writev | flush | read
+	Op  string `json:"op"`  // write | writev | wr (a write of either kind) | flush | read
 	K   int    `json:"k"`   // 1-based call index of that op
 	Err string `json:"err"` // plain | timeout | neterr | eof
 	// Partial: the failing Write/Writev reports n = 1 together with the error (a write that failed after partial progress)
@@ -97,6 +97,34 @@ type Transport struct {
 	Tracker     *Tracker
 	parkCounted bool
 	lastPartial bool
+	// write-side calls in progress (Write, Writev, Flush): a transport is not safe for concurrent use, the channel
+	// has to serialise them. overlap describes the first time two of them were in progress at once.
+	wActive int
+	wKind   string
+	overlap string
+}
+
+func (t *Transport) enterW(kind string) {
+	t.mu.Lock()
+	if t.wActive > 0 && t.overlap == "" {
+		t.overlap = fmt.Sprintf("%s was called while a %s call by another goroutine was still in progress", kind, t.wKind)
+	}
+	t.wActive++
+	t.wKind = kind
+	t.mu.Unlock()
+}
+
+func (t *Transport) exitW() {
+	t.mu.Lock()
+	t.wActive--
+	t.mu.Unlock()
+}
+
+// WriteOverlap reports the first overlap of two write-side calls ("" = they were always serialised).
+func (t *Transport) WriteOverlap() string {
+	t.mu.Lock()
+	defer t.mu.Unlock()
+	return t.overlap
 }
 
 // NewTransport creates a mock transport.
@@ -132,9 +160,12 @@ func (t *Transport) yield(label string, pred func() bool) {
 // fault returns the injected error for this call of op, if any.
 func (t *Transport) fault(op string) error {
 	t.counts[op]++
+	if op == "write" || op == "writev" {
+		t.counts["wr"]++ // "wr": the K-th transport write of either kind (how the sender batches is its own business)
+	}
 	t.lastPartial = false
 	for i, f := range t.faults {
-		if f.Op == op && f.K == t.counts[op] {
+		if (f.Op == op && f.K == t.counts[op]) || (f.Op == "wr" && (op == "write" || op == "writev") && f.K == t.counts["wr"]) {
 			e := MakeErr(f.Err)
 			t.FaultErr[i] = e
 			t.lastPartial = f.Partial
@@ -159,6 +190,8 @@ func (t *Transport) accept(b []byte) {
 }
 
 func (t *Transport) Write(p []byte) (int, error) {
+	t.enterW("Write")
+	defer t.exitW()
 	t.yield("t.write", nil)
 	t.mu.Lock()
 	idx := t.record(TEvent{Kind: "write", Start: len(t.accepted)})
@@ -209,6 +242,8 @@ func (t *Transport) Write(p []byte) (int, error) {
 }
 
 func (t *Transport) Writev(buffs transport.Buffers) (int64, error) {
+	t.enterW("Writev")
+	defer t.exitW()
 	t.yield("t.writev", nil)
 	t.mu.Lock()
 	idx := t.record(TEvent{Kind: "writev", Start: len(t.accepted), Segs: len(buffs)})
@@ -255,6 +290,8 @@ func (t *Transport) Writev(buffs transport.Buffers) (int64, error) {
 }
 
 func (t *Transport) Flush() error {
+	t.enterW("Flush")
+	defer t.exitW()
 	t.yield("t.flush", nil)
 	t.mu.Lock()
 	defer t.mu.Unlock()
